@@ -323,7 +323,7 @@ jcmd_jwe_enc(int argc, char *argv[])
 
         if (json_unpack(opt.io.obj, "{s:s}", "tag", &v) < 0) {
             fprintf(stderr, "Missing tag parameter!\n");
-            return false;
+            return EXIT_FAILURE;
         }
 
         fprintf(opt.io.output, ".%s", v);
